@@ -5,4 +5,9 @@ CLAIMED = {
   text="Every accepted string of a stated finite universe per ecosystem is compared with every other (both argument orders) on the real code; sign range, reflexivity, antisymmetry are checked per pair and transitivity for all triples via the rank criterion, so within the universe the verdict is complete, not sampled.",
   note="Bound: universe = grammar to the written repetition bounds + all strings of length <= L; strings outside it are not covered. alpm triples mixing pkgrel presence excluded as the property states. Known genuine defects are attributed by per-operand class predicates (known_findings.json); the complement sub-universe must pass the full criterion.",
   ref="DESIGN.md 3.3, 4 (C01)"),
+ "C02": dict(
+  technique="bounded-exhaustive enumeration of (comparator, bound, probe), (comparator pair, AND separator, bound pair, probe) and OR-group combinations on the real range parser and Contains, against the real Compare",
+  text="For every ecosystem the documented comparator/separator table is instantiated with every bound of a stated sub-universe and evaluated on every probe; the expected membership is computed from the implementation's own Compare, so the biconditional is decided for every enumerated case.",
+  note="Bounds are a stride sub-universe of C01's universe plus one bound per distinct letter; bounds starting with comparator characters or containing separators are out of scope as stated. The syntax table is written from the documentation (DESIGN.md Appendix B).",
+  ref="DESIGN.md 4 (C02)"),
 }
